@@ -1352,6 +1352,9 @@ func (env *SpecEnv) evalCall(x *ast.CallExpr) Val {
 		return boolVal(Term{fmt.Sprintf("(%s ((%s Int)) %s)", q, bv.S, body.S), SBool})
 	case "held":
 		v := env.addrOrVal(x.Args[0])
+		if _, isCh := v.T.Underlying().(*types.Chan); isCh {
+			return boolVal(Select(env.cur().heapTerm("CH#held", SBool, false), v.L[0]))
+		}
 		if len(v.L) < 1 || v.L[0].Sort != SBool {
 			specFail("held(): not a mutex")
 		}
@@ -1453,6 +1456,17 @@ func (env *SpecEnv) evalCall(x *ast.CallExpr) Val {
 		}
 		name, _ := strconv.Unquote(lit.Value)
 		return intVal(env.cur().countEvents(name))
+	case "visited":
+		// visited(m): how many keys the current range over map variable m has handed out
+		id, ok := x.Args[0].(*ast.Ident)
+		if !ok {
+			specFail("visited needs the ranged map variable")
+		}
+		g, ok := env.cur().ghost["$visited!"+id.Name]
+		if !ok {
+			specFail("unknown identifier: no range over %s in progress", id.Name)
+		}
+		return g
 	case "evarg":
 		// evarg("event", k): k-th recorded argument of the first occurrence of the event on this path
 		lit, ok := x.Args[0].(*ast.BasicLit)
@@ -1625,6 +1639,11 @@ func (env *SpecEnv) resolveType(e ast.Expr) types.Type {
 		}
 	case *ast.SelectorExpr:
 		if id, ok := x.X.(*ast.Ident); ok && env.pkg != nil {
+			if id.Name == env.pkg.Name() {
+				if tn, ok := env.pkg.Scope().Lookup(x.Sel.Name).(*types.TypeName); ok {
+					return tn.Type()
+				}
+			}
 			for _, imp := range env.pkg.Imports() {
 				if imp.Name() == id.Name {
 					if tn, ok := imp.Scope().Lookup(x.Sel.Name).(*types.TypeName); ok {
